@@ -829,7 +829,35 @@ func (fr *Frame) havocMods(st *State, ms *modSet) (wholeKeys []string) {
 	return wholeKeys
 }
 
+// trySpecBool evaluates a helper clause; a clause that names something the function no longer has (a local that
+// was removed or a loop special of another loop kind) yields nil instead of stopping the whole function.
+func (fr *Frame) trySpecBool(st *State, c *Clause, b map[string]*SVal) (g *Term, why string) {
+	defer func() {
+		if r := recover(); r != nil {
+			if x, ok := r.(specErr); ok && strings.Contains(x.msg, "stale-contract: unresolved name") {
+				g, why = nil, x.msg
+				return
+			}
+			panic(r)
+		}
+	}()
+	return fr.evalSpecBool(st, c.Expr, b, fr.entry), ""
+}
+
 func (fr *Frame) checkInvs(st *State, lc *loopCtx, phase string, node ast.Node) {
+	if phase == "entry" {
+		// helper invariants that no longer resolve are dropped (reported as a note); the obligations they
+		// supported are still generated and fail if the loop needed them
+		var keep []*Clause
+		for _, c := range lc.invs {
+			if g, why := fr.trySpecBool(st.Clone(), c, fr.loopBindings(lc)); g == nil {
+				fr.e.note("stale-invariant: %s loop %d invariant `%s` dropped (%s)", shortKey(fr.top.fn.Key), lc.ord, c.Text, why)
+				continue
+			}
+			keep = append(keep, c)
+		}
+		lc.invs = keep
+	}
 	for i, c := range lc.invs {
 		g := fr.evalSpecBool(st, c.Expr, fr.loopBindings(lc), fr.entry)
 		name := c.Name
